@@ -128,6 +128,27 @@ def make_call(rng, entry):
         call['l_out_prefix'], call['r_out_prefix'] = rng.choice([('left.', 'right.'), ('A_', 'B_'), ('', 'r_')])
     elif r < 0.35:
         call['l_out_prefix'] = call['r_out_prefix'] = rng.choice(['', 't_'])   # names are disjoint
+    if rng.random() < 0.15:
+        # both tables use the SAME column names for their attributes; the left key's name is an
+        # ordinary attribute of the right table and vice versa; one list object is passed for both
+        # l_out_attrs and r_out_attrs (as user code with a shared constant does)
+        n_r = T.spec_len(R)
+        R2 = {'cols': ['rkey', 'rjoin', 'lkey', 'shared'], 'index': R['index'],
+              'data': {'rkey': R['data']['rkey'], 'rjoin': R['data']['rjoin'],
+                       'lkey': ['plain%d' % i for i in range(n_r)],
+                       'shared': ['rs%d' % i for i in range(n_r)]},
+              'dtypes': {'rjoin': R['dtypes']['rjoin'], 'lkey': 'object', 'shared': 'object'}}
+        n_l = T.spec_len(L)
+        L2 = {'cols': ['lkey', 'ljoin', 'rkey', 'shared'], 'index': L['index'],
+              'data': {'lkey': L['data']['lkey'], 'ljoin': L['data']['ljoin'],
+                       'rkey': ['lplain%d' % i for i in range(n_l)],
+                       'shared': ['ls%d' % i for i in range(n_l)]},
+              'dtypes': {'ljoin': L['dtypes']['ljoin'], 'rkey': 'object', 'shared': 'object'}}
+        call['ltable'], call['rtable'] = L2, R2
+        shared = rng.choice([['lkey', 'rkey', 'shared'], ['shared', 'rkey', 'lkey', 'shared'], ['rkey', 'lkey']])
+        call['l_out_attrs'] = list(shared)
+        call['r_out_attrs'] = list(shared)
+        call['same_out_list'] = True
     if rng.random() < 0.7 or entry in T.JOINS:
         if rng.random() < 0.8:
             call['out_sim_score'] = rng.random() < 0.6
